@@ -56,6 +56,7 @@ def run(ctx):
             ctx.bad("U-BIND", "U-BIND:%s.listen_bindings.entry-missing" % owner, lb_body.span,
                     "%s::listen does not add the binding through exactly one listen_bindings.entry() (found %d): check-then-insert is not atomic and a second bind is not refused" % (owner, entries))
     ctx.floor("U-BIND", 2)
+    u_key(ctx, prog)
 
     # ---------------------------------------------------------------- U-LOOKUP / U-SRC / U-STRIP / U-DROP
     _check_demux(ctx, prog, udp_demux, "Udp",
@@ -289,3 +290,55 @@ def _check_demux(ctx, prog, b, owner, exact, forbidden, wildcard_keep, session_a
                     probs.append("with no binding at all the demux does not return MissingSession")
     (ctx.bad if probs else ctx.ok)("U-DROP", "U-DROP:%s::demux" % owner, b.span, "; ".join(probs) if probs else
         "no binding => DemuxError::MissingSession, the hand-off is unreachable from the double-miss arm")
+
+
+# the demultiplexing tables and what each must be keyed by: the identifying value itself, compared and hashed field by
+# field (derived), so that two different bindings / connections can never share a key
+KEYED = (("protocols::udp::Udp", "listen_bindings", ("utility::Endpoint",)),
+         ("protocols::udp::Udp", "sessions", ("utility::Endpoints",)),
+         ("protocols::tcp::Tcp", "listen_bindings", ("utility::Endpoint",)),
+         ("protocols::tcp::Tcp", "sessions", ("utility::Endpoints",)),
+         ("protocols::ipv4::Ipv4", "listen_bindings", ("ipv4_address::Ipv4Address", "ProtocolNumber")))
+
+
+def u_key(ctx, prog):
+    """U-KEY: the binding and session tables are keyed by the endpoint value(s) themselves, whose Eq and Hash are the
+    derived field-wise ones.  A key computed from the endpoint (a packed integer, a string) identifies bindings only if
+    the encoding is injective - which nothing here establishes - so it is reported."""
+    n = 0
+    for adt_name, field, want in KEYED:
+        try:
+            a = prog.adt(adt_name)
+        except Exception:
+            continue
+        for f in a["variants"][0]["fields"]:
+            if f["name"] != field:
+                continue
+            ty = F.tystr(a["_types"], f["ty"])
+            n += 1
+            m = ty[ty.index("<") + 1:] if "<" in ty else ty
+            # key = the first type argument of the map
+            depth, key = 0, ""
+            for ch in m:
+                if ch in "<(":
+                    depth += 1
+                elif ch in ">)":
+                    depth -= 1
+                if ch == "," and depth == 0:
+                    break
+                key += ch
+            parts = [x.strip() for x in key.strip("() ").split(",")] if key.strip().startswith("(") else [key.strip()]
+            ok = len(parts) == len(want) and all(p_.endswith(w) for p_, w in zip(parts, want))
+            (ctx.ok if ok else ctx.bad)("U-KEY", "U-KEY:%s.%s" % (adt_name.rsplit("::", 1)[-1], field), a.get("span"),
+                "keyed by %s" % key.strip() if ok else
+                "%s.%s is keyed by %s, not by %s itself: two different endpoints share a binding whenever the computed key collides (the encoding is not shown to be injective)" % (
+                    adt_name.rsplit("::", 1)[-1], field, key.strip(), " x ".join(want)))
+    # the key types compare and hash field by field
+    for tname in ("utility::Endpoint", "utility::Endpoints", "ipv4_address::Ipv4Address"):
+        for tr in ("core::cmp::PartialEq", "core::hash::Hash"):
+            impls = [b for b in prog.bodies.values() if b.kind == "method" and b.impl_trait == tr and b.self_ty is not None
+                     and b.types[b.self_ty].get("k") == "adt" and b.types[b.self_ty]["d"].endswith(tname)]
+            ok = bool(impls) and all(b.derived for b in impls)
+            (ctx.ok if ok else ctx.bad)("U-KEY", "U-KEY:%s:%s" % (tname.rsplit("::", 1)[-1], tr.rsplit("::", 1)[-1]), impls[0].span if impls else None,
+                "derived" if ok else "%s for %s is not the derived field-wise implementation: distinct endpoints may compare equal" % (tr.rsplit("::", 1)[-1], tname))
+    ctx.require(n >= 4, "U-KEY: binding/session tables not found (%d)" % n)
